@@ -106,7 +106,7 @@ def run(ck, rng):
         if not massive and rng.random() < 0.06:
             # the read fails before the first root is complete: an over-long first row (the scanner's limit)
             doc = rng.choice([b"- ", b"", b"  "]) + b"x" * rng.choice([65536, 70000]) + b"\n" + doc
-        stdout_mode = rng.choice(["pipe", "pipe", "pipe", "full", "closed"])
+        stdout_mode = rng.choice(["pipe", "pipe", "pipe", "full", "closed", "broken"])
         via_file = rng.choice([None, None, "in.md", "-", "missing.md"] + (["adir", "/dev/stdin", "/dev/null"] if kind != "usage" else []))
         if via_file == "/dev/null":
             doc = b""           # --file names a special file: whatever can be opened and read is read
@@ -121,7 +121,8 @@ def run(ck, rng):
             if fmt:
                 args += ["--format", fmt]
             if massive:
-                args += [rng.choice(["--massive", "-m"])]
+                # --massive-timeout implies massive mode (a generous deadline: the call finishes long before it)
+                args += rng.choice([["--massive"], ["-m"], ["--massive-timeout", "30s"], ["--mt", "1m"], ["--massive", "--massive-timeout", "30s"]])
             mfmt = fmt or "-"
             enc = {"": "d", "json": "j", "yaml": "y", "toml": "t"}.get(fmt)
             if enc is None:
@@ -192,7 +193,7 @@ def run(ck, rng):
         model_cases.append("cli %s %s %s %s %s %s %s %s %s %s %s" % (
             kind if kind != "usage" else args[0] if args[0] in ("output", "mkdir", "verify", "template") else "output",
             "1" if (expect_usage_err and mfmt not in ("xml",)) or kind == "usage" else "0", mfmt, "1" if expect_open_err else "0", mdry,
-            exts_plus(mexts), hx(mtarget), mstrict, "0" if stdout_mode == "full" else "-", snap_arg(mpre), hx(doc)))
+            exts_plus(mexts), hx(mtarget), mstrict, "0" if stdout_mode in ("full", "broken") else "-", snap_arg(mpre), hx(doc)))
     libres, _ = run_impl(exe, lib_cases)
     modelres = run_model(model_cases)
     broken = None
@@ -206,13 +207,15 @@ def run(ck, rng):
         ck.count("kind:" + kind)
         ck.count("stdout:" + stdout_mode)
         bad = None
-        if rc < 0 or rc > 125:
+        if stdout_mode == "broken" and rc == -13:
+            rc = 141        # killed by SIGPIPE: the conventional end of a process writing into a closed pipe (a failure status)
+        if rc < 0 or rc > 125 and rc != 141:
             bad = "the process crashed or hung (status %d)" % rc
         elif usage_err or open_err:
             ck.count("usage_or_open_error")
             if rc == 0:
                 bad = "usage / open failure but exit status 0"
-            elif not err.strip():
+            elif not err.strip() and rc != 141:     # (killed by SIGPIPE while printing the usage text to a closed pipe: no chance to explain)
                 bad = "failure without a diagnostic on stderr"
             elif {k: v for k, v in after.items() if k != b"in.md"} != {k: v for k, v in before.items() if k != b"in.md"}:
                 bad = "usage / open failure but the file system changed"
@@ -263,7 +266,7 @@ def run(ck, rng):
             # correspondence with the Gallina model of the CLI (Api/Cli.v): exit status, stdout bytes, file system
             mcode, mout, msnap = mr.split(" ")
             mcode = int(mcode)
-            codes_agree = (mcode == rc) or (mcode != 0 and rc != 0 and kind == "usage")
+            codes_agree = (mcode == rc) or (mcode != 0 and rc != 0 and kind == "usage") or (mcode != 0 and rc == 141 and stdout_mode == "broken")
             fs_now = {k: v for k, v in after.items() if k != b"in.md"}
             if not codes_agree:
                 broken = broken or ("cli " + " ".join(args), "exit %d" % rc, "model exit %d" % mcode)
@@ -299,6 +302,11 @@ def run_cli_doc(cli, args, stdin, stdout_mode, pre, doc, via_file):
         open(os.path.join(jail, "in.md"), "wb").write(doc)
     before = snap_dir(jail)
     so = subprocess.PIPE if stdout_mode == "pipe" else (open("/dev/full", "wb") if stdout_mode == "full" else None)
+    if stdout_mode == "broken":
+        # a pipe whose reading end is already closed: every write fails with EPIPE (or the process is killed by SIGPIPE)
+        rfd, wfd = os.pipe()
+        os.close(rfd)
+        so = os.fdopen(wfd, "wb")
     try:
         if stdout_mode == "closed":
             p = subprocess.run(["/bin/sh", "-c", 'exec "$0" "$@" >&-', cli] + args, input=stdin, stderr=subprocess.PIPE,
